@@ -315,7 +315,7 @@ std::string body_C02(Ctx& c, CaseIn& in) {
   }
   std::string how; for (auto& w : mu.what) how += (how.empty() ? "" : "; ") + w;
   std::vector<int> kinds;
-  for (int k : {R_Buf, R_Ped, R_BBuf, R_BPed, R_Log, R_BLog}) if (t.supports_reader(k)) kinds.push_back(k);
+  for (int k : {R_Buf, R_Ped, R_BBuf, R_BPed, R_Log, R_BLog, R_CPed, R_CBuf}) if (t.supports_reader(k)) kinds.push_back(k);
   DecodeOpts dopt; dopt.handles = &mu.handles;
   Decoded ref = ref_decode(*t.schema, mu.bytes, dopt);
   bool nontrivial = (!ref.ok && ref.nested_ok > 0) || (ref.ok && actual.kids.size() + actual.bytes.size() > 0) || mu.inflated_len || ref.inflated > 0;
@@ -332,6 +332,7 @@ std::string body_C02(Ctx& c, CaseIn& in) {
       int s = obj->read(r);
       uint64_t used = AllocMeter::disarm();
       c.rep.evaluations++;
+      if (s == kNonTermination) return fmt("non-termination: Read via %s issued more than %llu reader calls for a %zu-byte input [%s] input %s", rk_name(rk), (unsigned long long)(64 * ((uint64_t)mu.bytes.size() + 64)), mu.bytes.size(), how.c_str(), hex(mu.bytes).substr(0, 160).c_str());
       if (used > budget) return fmt("over-allocation: Read via %s allocated %llu bytes for a %zu-byte input (budget %llu, largest single request %llu) [%s] input %s", rk_name(rk), (unsigned long long)used, mu.bytes.size(), (unsigned long long)budget, (unsigned long long)AllocMeter::peak_single, how.c_str(), hex(mu.bytes).substr(0, 160).c_str());
       if (r.position() != SIZE_MAX && r.position() > mu.bytes.size() && (rk == R_Ped || rk == R_BPed || rk == R_Log || rk == R_BLog)) return fmt("position-past-end: %s at %zu of %zu", rk_name(rk), r.position(), mu.bytes.size());
       // inspect, then reuse for a valid read, then destroy
@@ -547,7 +548,7 @@ std::string fuzz_one(Ctx& c, const TypeOps& t, bool is02, const uint8_t* data, s
   }
   if (t.unbounded || size == 0) return "";
   const Bytes& good_bytes = it->second.good_bytes;
-  static const int kinds_all[] = {R_Buf, R_Ped, R_BBuf, R_BPed, R_Log, R_BLog};
+  static const int kinds_all[] = {R_Buf, R_Ped, R_BBuf, R_BPed, R_Log, R_BLog, R_CPed, R_CBuf};
   std::vector<int> kinds; for (int k : kinds_all) if (t.supports_reader(k)) kinds.push_back(k);
   int rk = kinds[data[0] % kinds.size()];
   const uint8_t* msg = data + 1; size_t n = size - 1;
@@ -561,6 +562,7 @@ std::string fuzz_one(Ctx& c, const TypeOps& t, bool is02, const uint8_t* data, s
   int s = obj->read(r);
   uint64_t used = AllocMeter::disarm();
   c.rep.evaluations++;
+  if (s == kNonTermination) return fmt("non-termination: Read via %s exceeded the reader call budget for a %zu-byte input", rk_name(rk), n);
   if (used > budget) return fmt("over-allocation: Read via %s allocated %llu bytes for %zu input bytes (budget %llu)", rk_name(rk), (unsigned long long)used, n, (unsigned long long)budget);
   *accepted = s == 0;
   Value seen = obj->get(); (void)seen;
